@@ -36,18 +36,6 @@ SpentKeys(body, key) == LET ins == Elems(body, key) IN
    {PayKey(env[InputKey(ins[j])].addr) : j \in {i \in 1..Len(ins) : InputKey(ins[i]) \in DOMAIN env /\ PayKeyAddr(env[InputKey(ins[i])].addr)}}
 SpentByron(body, key) == LET ins == Elems(body, key) IN
    {env[InputKey(ins[j])].addr : j \in {i \in 1..Len(ins) : InputKey(ins[i]) \in DOMAIN env /\ IsByronAddr(env[InputKey(ins[i])].addr)}}
-VKeysNeeded(body, ws) ==
-   SpentKeys(body, 0) \cup SpentKeys(body, 13)
-   \cup UNION {CertSigners(Elems(body,4)[j]) : j \in 1..Len(Elems(body,4))}
-   \cup (IF HasK(body, 5) THEN LET w == GetK(body, 5) IN {SubSeq(w.kids[2*j-1].str, 2, 29) : j \in {i \in 1..(Len(w.kids) \div 2) : RewardIsKey(w.kids[2*i-1].str)}} ELSE {})
-   \cup {Elems(body,14)[j].str : j \in 1..Len(Elems(body,14))}
-   \cup UNION {NativeLeaves(Elems(ws,1)[j]) : j \in 1..Len(Elems(ws,1))}
-   \* key-hash voters of body[19]: voter = [type, hash], types 0 (committee hot key), 2 (DRep key), 4 (stake pool)
-   \cup (IF HasK(body, 19) THEN LET v == GetK(body, 19) IN {v.kids[2*j-1].kids[2].str : j \in {i \in 1..(Len(v.kids) \div 2) : Small(v.kids[2*i-1].kids[1].arg) \in {0, 2, 4}}} ELSE {})
-   \* native scripts provided at reference inputs
-   \cup UNION {NativeLeaves(Parse(b[2])) : b \in {x \in DOMAIN scripts : scripts[x].kind = "native" /\
-                  \E j \in 1..Len(Elems(body,18)) : InputKey(Elems(body,18)[j]) \in DOMAIN env /\ env[InputKey(Elems(body,18)[j])].rsh = scripts[x].hash}}
-ByronNeeded(body) == SpentByron(body, 0) \cup SpentByron(body, 13)
 \* ---- events
 Reset(e) ==
   /\ env' = [k \in {<<e.utxo[i].txid, e.utxo[i].ix>> : i \in 1..Len(e.utxo)} |->
@@ -93,7 +81,9 @@ Op(e) ==
   \* the script data hash is the obligation of C09 only while it was computed after the last script-related call
   /\ sdhFresh' = (IF ~Has(e.r, "ok") THEN sdhFresh
                   ELSE IF e.op = "CalcScriptDataHash" THEN <<e.langs>>
-                  ELSE IF e.op \in {"AddPlutusInput", "AddNativeInput", "SetMint", "SetCerts", "SetWithdrawals", "SetVotes", "AddExtraDatum", "AddRefInput"} THEN <<>>
+                  \* (an input added later - also a key-owned or selected one - moves the spending pointers, which are part of the hashed redeemer bytes)
+                  ELSE IF e.op \in {"AddPlutusInput", "AddNativeInput", "SetMint", "SetCerts", "SetWithdrawals", "SetVotes", "AddExtraDatum", "AddRefInput",
+                                    "AddInput", "AddAny2Input", "AddInputsFrom", "AddInputsFromAndChange", "AddInputsFromAndChangeWithCollateralReturn"} THEN <<>>
                   ELSE sdhFresh)
   /\ colPct' = (IF e.op = "AddInputsFromAndChangeWithCollateralReturn" /\ Has(e.r, "ok") THEN <<FromBE(e.pct_n)>> ELSE IF e.op \in ColHelpers \cup {"SetCollateralReturn", "SetTotalCollateral"} THEN <<>> ELSE colPct)
 \* ---- Plutus / script obligations of a built transaction (C09 C10 C18 and the script parts of C06)
@@ -114,6 +104,19 @@ NeededScripts(body) ==
    \cup {SubSeq(r, 2, 29) : r \in {x \in RewardAccounts(body) : (x[1] \div 16) = 15}}
    \cup (IF HasK(body, 19) THEN LET v == GetK(body, 19) IN {v.kids[2*j-1].kids[2].str : j \in {i \in 1..(Len(v.kids) \div 2) : Small(v.kids[2*i-1].kids[1].arg) \in {1, 3}}} ELSE {})
 RefInputKeys(body) == {InputKey(Elems(body,18)[j]) : j \in 1..Len(Elems(body,18))}
+VKeysNeeded(body, ws) ==
+   SpentKeys(body, 0) \cup SpentKeys(body, 13)
+   \cup UNION {CertSigners(Elems(body,4)[j]) : j \in 1..Len(Elems(body,4))}
+   \cup (IF HasK(body, 5) THEN LET w == GetK(body, 5) IN {SubSeq(w.kids[2*j-1].str, 2, 29) : j \in {i \in 1..(Len(w.kids) \div 2) : RewardIsKey(w.kids[2*i-1].str)}} ELSE {})
+   \cup {Elems(body,14)[j].str : j \in 1..Len(Elems(body,14))}
+   \cup UNION {NativeLeaves(Elems(ws,1)[j]) : j \in 1..Len(Elems(ws,1))}
+   \* key-hash voters of body[19]: voter = [type, hash], types 0 (committee hot key), 2 (DRep key), 4 (stake pool)
+   \cup (IF HasK(body, 19) THEN LET v == GetK(body, 19) IN {v.kids[2*j-1].kids[2].str : j \in {i \in 1..(Len(v.kids) \div 2) : Small(v.kids[2*i-1].kids[1].arg) \in {0, 2, 4}}} ELSE {})
+   \* native scripts provided at reference inputs - when something in the body is locked by them (a script merely held by a
+   \* referenced output calls for nobody's signature)
+   \cup UNION {NativeLeaves(Parse(b[2])) : b \in {x \in DOMAIN scripts : scripts[x].kind = "native" /\ scripts[x].hash \in NeededScripts(body) /\
+                  \E j \in 1..Len(Elems(body,18)) : InputKey(Elems(body,18)[j]) \in DOMAIN env /\ env[InputKey(Elems(body,18)[j])].rsh = scripts[x].hash}}
+ByronNeeded(body) == SpentByron(body, 0) \cup SpentByron(body, 13)
 ScriptChecks(e, tx, body, ws, sc, shape) ==
   LET reds == Redeemers(ws)
       live == {a \in AllAttach :      \* attachments whose item is still part of the body
